@@ -67,8 +67,9 @@ CHECKS: dict[str, dict] = {
             "seeded training life-cycles of the real ml.train on real equivariant models (ConvBlock/ResNet/UNet/DilResNet; unsorted signatures with pseudo-types; all bias modes; "
             "norm, activation, pre-activation, torus flag; d in {2,3}) with real optax optimisers (sgd, adam, adamw+decay, large learning rates), 1-3 segments of 1-20 epochs, "
             "1-2 devices, smse / per-timestep loss; faults: crash at a drawn seam call (clock, optimiser update, get_batches, wandb, checkpoint write), torn checkpoints, "
-            "restart with ml.load into a fresh twin or from scratch, optimiser/device/batch change across restarts, wandb stalls, clock jumps. Invariants after every segment: "
-            "equivariance for every g in B_d on three probes (tolerance 2e-3 relative + persistence), filter bank = initial x common scalar, non-vacuity. "
+            "crash inside the k-th raw write of a checkpoint, restart with ml.load (short reads) into a fresh twin or from scratch, optimiser/device/batch change across restarts, "
+            "wandb stalls and errors, disk full, clock jumps. Invariants after every segment: equivariance for every g in B_d and cyclic shifts along toroidal axes on three probes "
+            "(boundary flags travel with their axes; conditioning-aware tolerance + persistence), filter bank = initial x common scalar, non-vacuity. "
             "distinct = hash of (class, per-segment optimiser/devices/checkpointing, crash/restart outcomes); non-trivial = some trainable leaf moved by more than 1e-3"
         ),
         "components": REAL_STUB,
@@ -93,7 +94,13 @@ CHECKS: dict[str, dict] = {
             {"engine": "e4_lifecycle", "label": "serialise", "profile": {"mode": "serialise"}, "n_runs": 160 if tier == "quick" else 4000, "budget_s": 110 if tier == "quick" else 1200},
             {"engine": "e4_lifecycle", "label": "lifecycle", "profile": {"mode": "lifecycle"}, "n_runs": 64 if tier == "quick" else 2000, "budget_s": 80 if tier == "quick" else 900},
         ],
-        "rule": E1_RULE,
+        "rule": E1_RULE + (
+            " | batches serialise/lifecycle (E4): model drawn from the constructor space (LayerNorm, VectorNeuronNonlinear, GroupAverage, ModelWrapper, Climate1D, "
+            "ConvContract, ConvBlock, ResNet, DilResNet, UNet), every kind of leaf moved first (optimiser-like update of arrays, common rescaling of the filter bank, "
+            "python-float leaves x100, inference flag), then ml.save -> ml.load into a twin built with another key through SimDisk: short writes/reads, ENOSPC/EIO, "
+            "crash after save or inside the k-th raw write, same path re-used with write-back in between; clauses: loaded leaves and outputs bit-equal after a "
+            "completed save; after a crash 'old or new, never garbage'; distinct = hash of the event-kind sequence incl. fault kinds"
+        ),
         "level_text": "Seeded search over operation-and-transport histories of real MultiImage objects against an unordered reference model, compared bit-exactly by type after every step; failing histories are delta-debugged to a few operations and replayed from a file. Sampling, not proof.",
         "level_note": "Trusted: the numpy reference semantics in sim/engines/e1_container.py (about 250 lines), JAX as installed. Values are small integers so float32 arithmetic is exact.",
         "technique": "deterministic simulation of re-layout chains with transport faults, seeded history search against an unordered reference model; save/load through a fault-injecting simulated disk (E4, when registered)",
@@ -105,7 +112,12 @@ CHECKS: dict[str, dict] = {
         "batches": lambda tier: _e1("per_image", {"obs": 4}, 400, 16000)(tier) + [
             {"engine": "e2_train", "label": "crosstalk", "profile": {"mode": "crosstalk"}, "n_runs": 96 if tier == "quick" else 3000, "budget_s": 150 if tier == "quick" else 1500},
         ],
-        "rule": E1_RULE,
+        "rule": E1_RULE + (
+            " | batch crosstalk (E2-real): a perturbed real model (equivariant and conventional; ConvBlock/ResNet/UNet/DilResNet; group norm) evaluated on one data "
+            "set through the real map_plus_loss_in_batches under 2-3 drawn schedules (key|None, batch size, 1/2/4 devices); every delivered sample is attributed through "
+            "the recording get_batches seam and its prediction compared with the model applied to that sample alone (conditioning-aware tolerance, persistence); "
+            "without a key row r must be sample r; garbage replacement of the other entries of a vmapped batch; GroupNorm channel-group independence for groups>1"
+        ),
         "level_text": "Seeded search over operation-and-transport histories of real MultiImage objects against an unordered reference model, compared bit-exactly by type after every step; failing histories are delta-debugged to a few operations and replayed from a file. Sampling, not proof.",
         "level_note": "Trusted: the numpy reference semantics in sim/engines/e1_container.py (about 250 lines), JAX as installed. Values are small integers so float32 arithmetic is exact.",
         "technique": "deterministic simulation: leading-axis layouts reached by operation histories, per-entry comparison with the single-image operation; batch-schedule half via the training-loop world (when registered)",
@@ -158,7 +170,8 @@ CHECKS: dict[str, dict] = {
         "rule": (
             "seeded (L, B, key|None, device count in {1,2,4} dividing B, 1-3 co-batched multi-images with different type sets/orders, operands optionally "
             "crossing jit/pytree first) for direct calls; for the train batch every get_batches call made by the real ml.train / map_loss_in_batches over 1-6 epochs "
-            "is recorded at the seam and the in-pmap loss sum|x_index - y_index| must be 0. Samples carry 8*i+channel so index tensors are recovered exactly. "
+            "is recorded at the seam, a seam around train_step records the samples actually consumed per epoch (and injects a transient step error), the in-pmap loss sum|x_index - y_index| "
+            "must be 0; in-place change of the data set followed by re-batching; threshold-sized blocks. Samples carry 64*i+8*type+channel so rows are attributed exactly. "
             "distinct = hash of (mode, devices, divisibility, L, B, number of multi-images, key, transports); non-trivial = more than one device, or L not a multiple of B, or a shuffling key"
         ),
         "components": REAL_STUB,
